@@ -358,6 +358,18 @@ TEXTS = [
     ('expr-name', 'SELECT v + 1, upper(k) FROM #t', None),
     ('expr-name-agg', 'SELECT k, sum(v), count(*) FROM #t GROUP BY k', None),
     ('expr-name-spaces', 'SELECT  v  *  2 , k FROM #t WHERE v IS NOT NULL', None),
+    # names that are the source text of an expression keep their letter case, quotes and blanks
+    ('expr-name-upper', 'SELECT k, SUM(v), Count(*) FROM #t GROUP BY k', None),
+    ('expr-name-string', "SELECT k = 'Ab', v + 1, UPPER(k) FROM #t", None),
+    ('expr-name-constants', "SELECT 'Tag', 42, k, 2020-01-02, TRUE FROM #t", None),
+    ('expr-name-nested-star', 'SELECT * FROM (SELECT v + 1, UPPER(k), id FROM #t)', None),
+    # structured and collection datatypes coming out of a sub-query on a Beancount-backed connection
+    ('ledger-inventory', 'SELECT account, sum(position), units(sum(position)), cost(sum(position)), count(*) FROM #postings GROUP BY account', 'ledger'),
+    ('ledger-row-types', 'SELECT date, balance, position, units(position), weight, meta, tags, links, other_accounts, number FROM #postings', 'ledger'),
+    ('ledger-entries', 'SELECT id, type, meta, tags, links, date FROM #entries', 'ledger'),
+    ('ledger-attributes', 'SELECT account, open.date, close.date, open.meta FROM #accounts', 'ledger'),
+    ('ledger-star-entries', 'SELECT * FROM #entries', 'ledger'),
+    ('ledger-star-postings', 'SELECT * FROM #postings WHERE number > 0', 'ledger'),
     ('dup-names', 'SELECT id AS a, k AS a FROM #t', 'duplicate'),
     ('dup-columns', 'SELECT v, v FROM #t', 'duplicate'),
     ('dup-three', 'SELECT id AS a, k AS b, v AS a FROM #t', 'duplicate'),
@@ -365,8 +377,11 @@ TEXTS = [
 
 
 def check_text(tag, text, kind, seed, acc):
-    tabs = base_tables(seed)
-    conn = make_conn(tabs)
+    if kind == 'ledger':
+        from .. import sample_ledger
+        conn = sample_ledger.connect()
+    else:
+        conn = make_conn(base_tables(seed))
     case = {'kind': 'text', 'tag': tag, 'seed': seed}
     acc.count('executions')
     acc.count('text_statements')
